@@ -377,3 +377,12 @@ REG.contract(
     ensures={"fill_runs_in_the_context_the_mode_prescribes": _rsc_post,
              "existing_contexts_untouched": lambda c: _others_unchanged(c, z3.IntVal(-1))},
 )
+
+
+def _bounded_scoping(tier, repo):
+    from harness.bounded_scoping import run
+    return run(repo, 1)
+
+
+REG.bounded_check("bounded#templates_and_fills_see_what_the_mode_prescribes", "C03", _bounded_scoping,
+                  note="SlotNode.render / ComponentNode.render / _render_impl are not under contract: 200 pages (with / for wrappers around the component tag and inside the fill, the component nested in its own fill) x 2 outer contexts x 2 modes are rendered for real and compared with an environment model of the property; the caller's Context must be left as found.  Known finding F-C03a (loop variables visible in isolated mode) is tagged by the harness")
